@@ -40,7 +40,7 @@ Init ==
 \* begin the next ceremony of the run
 \* the environment changes between two ceremonies (a descriptor with api "env"): what the user-validation method
 \* and the store report from now on
-NewCfg(cfg, r) == [cfg EXCEPT !.uvCap = r.uvCap, !.upCap = r.upCap, !.disc = r.disc]
+NewCfg(cfg, r) == [k \in DOMAIN cfg |-> IF k \in DOMAIN r THEN r[k] ELSE cfg[k]]     \* the fields the step names change
 Reconfig ==
     /\ phase = "idle" /\ idx < Len(plan.cers) /\ plan.cers[idx + 1].api = "env"
     /\ LET n == NewCfg(st.cfg, plan.cers[idx + 1].req) IN
@@ -88,6 +88,11 @@ Spec == Init /\ [][Next]_vars
 
 Done == phase = "idle" /\ idx = Len(plan.cers) /\ run = Len(plan.stores)
 
+\* "terminates" (C18) as a liveness property of the model: under weak fairness every plan runs to its end - no ceremony
+\* of Ceremony!Step / ClientCer!Step can take steps for ever (CerMC_*live.cfg: SPECIFICATION FairSpec, PROPERTY Termination)
+FairSpec == Spec /\ WF_vars(Next)
+Termination == <>Done
+
 \* Layer A on the model
 PropertiesHold == \/ P!Violated(obs) \subseteq Known
                   \/ PrintT(<<"VIOLATED", P!Violated(obs) \ Known>>) /\ FALSE
@@ -120,6 +125,9 @@ BaseEnv == [uv |-> UvOk(TRUE, TRUE), faults |-> <<0, 0, 0>>, cancelAt |-> -1]
 Cer(api, op, req, env) == [api |-> api, op |-> op, req |-> req, env |-> env]
 \* a change of the environment between two ceremonies (consumed by the action Reconfig)
 Env(u, p, d) == [api |-> "env", op |-> "reconfig", req |-> [uvCap |-> u, upCap |-> p, disc |-> d], env |-> BaseEnv]
+\* another authenticator object, configured differently, takes over the same store (a new release of the application,
+\* a second device profile): PRF support, credential id length, signature counters.  Also consumed by Reconfig.
+Rebuild(h, n, c) == [api |-> "env", op |-> "rebuild", req |-> [hmac |-> h, idLen |-> n, counterOn |-> c], env |-> BaseEnv]
 
 -----------------------------------------------------------------------------
 (* C04: the complete product                                                *)
@@ -513,6 +521,32 @@ C18s_Cers ==
     { << Cer("ctap2", "mc", [BaseReq EXCEPT !.user = "u3", !.cdh = h], BaseEnv),
          Cer("ctap2", "ga", [BaseReq EXCEPT !.allow = <<"c1">>, !.allowGiven = TRUE, !.cdh = h], BaseEnv) >> :
         h \in {"h0", "h3", "h20", "h64"} }
+
+\* C18: "an authenticator in the same state" includes what earlier commands left behind: a command that was abandoned
+\* while suspended (the caller dropped it at gate k), or that failed at a store call, followed by further commands
+C18a_First ==
+    { Cer("ctap2", "mc", [BaseReq EXCEPT !.user = "u3"], [BaseEnv EXCEPT !.cancelAt = k]) : k \in 0..3 }
+    \cup { Cer("ctap2", "ga", [BaseReq EXCEPT !.allow = <<"c1">>, !.allowGiven = TRUE], [BaseEnv EXCEPT !.cancelAt = k]) : k \in 0..3 }
+    \cup { Cer("ctap2", "mc", [BaseReq EXCEPT !.user = "u3"], [BaseEnv EXCEPT !.faults = f]) : f \in {<<1, 0, 0>>, <<0, 40, 0>>} }
+    \cup { Cer("ctap2", "ga", BaseReq, [BaseEnv EXCEPT !.faults = f]) : f \in {<<40, 0, 0>>, <<0, 1, 0>>} }
+    \cup { Cer("ctap2", "info", BaseReq, [BaseEnv EXCEPT !.cancelAt = 0]) }
+C18a_Cers ==
+    { << a, Cer("ctap2", "mc", [BaseReq EXCEPT !.user = "u3", !.rk = TRUE], BaseEnv), Cer("ctap2", "ga", BaseReq, BaseEnv),
+         Cer("ctap2", "info", BaseReq, BaseEnv) >> : a \in C18a_First }
+    \cup { << a, b, Cer("ctap2", "ga", BaseReq, BaseEnv) >> : a \in C18a_First, b \in C18a_First }
+
+\* credentials made under one authenticator configuration and used under another one (C06 C08 C09)
+Rb_Cfgs == { [BaseCfg EXCEPT !.hmac = h, !.mc = TRUE, !.idLen = n, !.counterOn = c, !.uvCap = "configured"] :
+               h \in {"uvonly", "withoutuv"}, n \in {16, 32}, c \in BOOLEAN }
+Rb_Stores == { << <<>> >> }
+Rb_Cers ==
+    { << Cer("ctap2", "mc", [BaseReq EXCEPT !.user = "u3", !.rk = TRUE, !.uv = TRUE, !.prf = PrfOne], BaseEnv),
+         Rebuild(h, n, c),
+         Cer("ctap2", "ga", [BaseReq EXCEPT !.uv = uv, !.prf = p], BaseEnv),
+         Cer("ctap2", "mc", [BaseReq EXCEPT !.user = "u1", !.rk = TRUE, !.prf = PrfOne], BaseEnv),
+         Cer("ctap2", "ga", [BaseReq EXCEPT !.uv = ~uv, !.prf = p], BaseEnv) >> :
+        h \in {"off", "uvonly", "withoutuv"}, n \in {16, 64}, c \in BOOLEAN, uv \in BOOLEAN,
+        p \in {PrfOne, [PrfOne EXCEPT !.eval = "two"]} }
 
 C14e_Cers ==
     { << Cer("client", "mc", [WithCprf(BaseCReq, c) EXCEPT !.user = "u1", !.residentKey = rk, !.credProps = cp], BaseEnv),
